@@ -266,7 +266,17 @@ func (e *Enc) applyContract(fr *Frame, val ssa.Value, c *Contract, key string, n
 		e.assume(g, f)
 	}
 	var h2 *Heap
-	if c.Pure {
+	effPure := c.Pure
+	if !effPure && c.HasMod && len(c.Modifies) == 0 {
+		// `modifies nothing` with scalar results: no heap effect observable by the caller
+		effPure = true
+		for i := 0; i < sig.Results().Len(); i++ {
+			if !scalarType(sig.Results().At(i).Type(), 0) {
+				effPure = false
+			}
+		}
+	}
+	if effPure {
 		h2 = h
 	} else {
 		ce := &callEffect{foot: map[string][]string{}, guard: g}
@@ -439,6 +449,27 @@ func (e *Enc) addFootprint(ce *callEffect, m string, env *SpecEnv) {
 	if !found {
 		e.fatalf("modifies %s: no such field", m)
 	}
+}
+
+// scalarType: values of the type cannot reference heap objects.
+func scalarType(t types.Type, depth int) bool {
+	if depth > 4 {
+		return false
+	}
+	switch u := t.Underlying().(type) {
+	case *types.Basic:
+		return u.Kind() != types.UnsafePointer
+	case *types.Struct:
+		for i := 0; i < u.NumFields(); i++ {
+			if !scalarType(u.Field(i).Type(), depth+1) {
+				return false
+			}
+		}
+		return true
+	case *types.Array:
+		return scalarType(u.Elem(), depth+1)
+	}
+	return false
 }
 
 func typeBaseName(t types.Type) string {
